@@ -393,6 +393,111 @@ def rule_r6(prog, res) -> None:
         raise AnalysisError(f"C12.R6: only {n} constructors that write and then load patches found, minimum 3")
 
 
+def rule_r7(prog, res) -> None:
+    """patch metadata restored from its stored form hold the stored values (shared with C11.R10): constructors
+    initialise each attribute from the parameter of the same name"""
+    from . import c11
+    from .common import shared_rule
+
+    shared_rule(res, c11.rule_r10, "C11", "C11.R10", "C12.R7")
+
+
+def rule_r8(prog, res) -> None:
+    """every catalog that is counted went through the linkage's consistency guard: for each combination of optional
+    inputs of autocorrelate / crosscorrelate (randoms given or not, optional counts requested or not) the catalogs
+    handed to any count_pairs call are among those handed to PatchLinkage.from_catalogs — the only place where the
+    patch-id sets and the centre alignment of the catalogs are compared. Decided on the symbolic store."""
+    from .. import symx
+    from .c01 import _measure_paths
+
+    n = 0
+    for name in ("autocorrelate", "crosscorrelate"):
+        fi = prog.func(name)
+        res.touch(fi)
+        params = set(fi.param_names())
+        bad = None
+        for env, p in _measure_paths(prog, fi):
+            links = p.calls("from_catalogs")
+            if not links:
+                raise AnalysisError(f"C12.R8: {name} does not build the patch linkage through from_catalogs on some path")
+            linked = set()
+            for ev in links:
+                for a in ev.expr.args:
+                    e = symx.strip_wrappers(a.value if isinstance(a, ast.Starred) else a)
+                    for y in ast.walk(e):
+                        if isinstance(y, ast.Name) and y.id in params:
+                            linked.add(y.id)
+            counted = set()
+            for ev in [e_ for e_ in p.calls() if e_.callee.startswith("count_pairs")]:
+                for a in ev.expr.args:
+                    if isinstance(a, ast.Name) and a.id in params and env.get(a.id, "SOME") is not None:
+                        counted.add(a.id)
+            n += 1
+            if counted - linked and bad is None:
+                bad = (ev, sorted(counted - linked), {k: v for k, v in env.items() if k != "on_root()"})
+        if bad is None:
+            res.ok("C12.R8", res.site(fi), "every counted catalog is handed to PatchLinkage.from_catalogs (patch-id and alignment guard) for all option combinations")
+        else:
+            res.violation(
+                "C12.R8",
+                fi,
+                bad[0].node,
+                f"{name} counts pairs with {bad[1]} but does not hand it to PatchLinkage.from_catalogs (options {bad[2]}): its patch ids and centres are never compared with the other catalogs, "
+                "misaligned patches are counted silently instead of raising",
+                key_extra=f"counted-not-linked-{name}-{'-'.join(bad[1])}",
+            )
+    if n < 4:
+        raise AnalysisError(f"C12.R8: only {n} measurement paths analysed, minimum 4")
+
+
+def rule_r9(prog, res) -> None:
+    """patch metadata own their values: what Metadata.compute stores is computed from (or a copy of) its inputs, never
+    the caller's object itself — an aliased centre array changes the metadata of an existing catalog when the caller
+    later edits the array it passed (in one process; pickling to workers hides it). Decided on the symbolic store:
+    no stored field of the new instance is a bare parameter or an attribute / view of one."""
+    from .. import symx
+
+    meta = prog.find_class("Metadata")
+    n = 0
+    for m in meta.methods.values():
+        if not m.is_classmethod or m.name in ("from_dict", "from_file"):
+            continue
+        params = set(m.param_names()) - {"cls"}
+        paths = [p for p in symx.explore(prog, m, inline=symx.inline_private_helpers(prog)) if p.outcome == "return"]
+        if not paths:
+            continue
+        res.touch(m)
+        bad = None
+        for p in paths:
+            rv = p.node.value if isinstance(p.node, ast.Return) and isinstance(p.node.value, ast.Name) else None
+            if rv is None:
+                continue
+            for key, val in p.store.items():
+                if not (isinstance(key, str) and key.startswith(rv.id + ".") and key.count(".") == 1):
+                    continue
+                n += 1
+                e = symx.strip_wrappers(val)
+                root = e
+                while isinstance(root, (ast.Attribute, ast.Subscript)):
+                    root = root.value
+                aliased = isinstance(root, ast.Name) and root.id in params and not any(isinstance(y, ast.Call) for y in ast.walk(e))
+                if aliased:
+                    bad = bad or (key.split(".")[1], unparse(e))
+        if bad:
+            res.violation(
+                "C12.R9",
+                m,
+                m.node,
+                f"Metadata.{m.name} stores the caller's object as `{bad[0]} = {bad[1]}` (no copy): editing that array afterwards changes the metadata of the existing catalog — "
+                "centres no longer describe the stored partition, although a freshly opened catalog looks right",
+                key_extra=f"meta-alias-{bad[0]}",
+            )
+        else:
+            res.ok("C12.R9", res.site(m), "every stored field is computed from or a copy of the inputs")
+    if n < 3:
+        raise AnalysisError(f"C12.R9: only {n} metadata fields found in the computing constructor, minimum 3")
+
+
 RULES = [
     ("C12.R1", rule_r1, QUICK),
     ("C12.R2", rule_r2, QUICK),
@@ -400,4 +505,7 @@ RULES = [
     ("C12.R4", rule_r4, QUICK),
     ("C12.R5", rule_r5, QUICK),
     ("C12.R6", rule_r6, QUICK),
+    ("C12.R7", rule_r7, QUICK),
+    ("C12.R8", rule_r8, QUICK),
+    ("C12.R9", rule_r9, QUICK),
 ]
